@@ -86,14 +86,14 @@ fn update_largest_step<const N: usize>(strict: bool) {
 #[kani::proof]
 #[kani::unwind(6)]
 #[kani::stub(std::sync::Mutex::lock, stub_lock)]
-fn c04_sent_ack_of_unsent_rejected_n0() {
+fn c04_p_sent_ack_of_unsent_rejected_n0() {
     update_largest_step::<0>(true);
 }
 
 #[kani::proof]
 #[kani::unwind(6)]
 #[kani::stub(std::sync::Mutex::lock, stub_lock)]
-fn c04_sent_ack_of_unsent_rejected_n2() {
+fn c04_p_sent_ack_of_unsent_rejected_n2() {
     update_largest_step::<2>(true);
 }
 
